@@ -486,10 +486,12 @@ func (ex *Exec) havocTarget(env *Env, st *State, m *ModTarget) {
 	case ModAllMem:
 		for _, k := range ex.memKeys(env, m) {
 			st.set(k.key, FreshVar("hv_"+k.key, k.sort))
+			ex.noteWholeKey(k.key)
 		}
 	case ModAllOfType:
 		for _, k := range ex.typeKeys(env, m) {
 			st.set(k.key, FreshVar("hv_"+k.key, k.sort))
+			ex.noteWholeKey(k.key)
 		}
 	case ModField:
 		loc := ex.fieldLocE(env, m.Base, m.Field)
@@ -900,4 +902,11 @@ func offLoc(loc *Loc, off int, t types.Type) *Loc {
 		nl.Alt = offLoc(loc.Alt, off, t)
 	}
 	return &nl
+}
+
+func (ex *Exec) noteWholeKey(k string) {
+	if ex.calleeWholeKeys == nil {
+		ex.calleeWholeKeys = map[string]bool{}
+	}
+	ex.calleeWholeKeys[k] = true
 }
